@@ -403,3 +403,115 @@ Proof.
   - constructor; constructor.
   - apply andb_true_iff in H. destruct H as [H1 H2]. constructor; auto.
 Qed.
+
+(* ------------------------------------------------------------------ *)
+(* lexP is a total preorder; ORDER BY is stable *)
+Lemma klt_trans a b c : klt a b = true -> klt b c = true -> klt a c = true.
+Proof.
+  intros H1 H2. destruct (klt_ntrans _ c _ H1) as [H|H]; auto.
+  apply klt_asym in H2. congruence.
+Qed.
+
+Lemma lexP_refl keys a : lexP keys a a.
+Proof.
+  induction keys as [|[desc v] ks IH]; simpl; auto.
+  right. split; auto. destruct desc; apply klt_irrefl.
+Qed.
+
+Lemma lexP_total keys a b : lexP keys a b \/ lexP keys b a.
+Proof.
+  induction keys as [|[desc v] ks IH]; simpl; auto.
+  set (x := lookup v a). set (y := lookup v b).
+  destruct desc.
+  - destruct (klt y x) eqn:E1; [left; left; reflexivity|].
+    destruct (klt x y) eqn:E2; [right; left; reflexivity|].
+    destruct IH as [H|H]; [left|right]; right; auto.
+  - destruct (klt x y) eqn:E1; [left; left; reflexivity|].
+    destruct (klt y x) eqn:E2; [right; left; reflexivity|].
+    destruct IH as [H|H]; [left|right]; right; auto.
+Qed.
+
+Lemma lexP_trans keys a b c : lexP keys a b -> lexP keys b c -> lexP keys a c.
+Proof.
+  induction keys as [|[desc v] ks IH]; simpl; auto.
+  set (x := lookup v a). set (y := lookup v b). set (z := lookup v c).
+  assert (G : forall lt : option term -> option term -> bool,
+            (forall p q, lt p q = true -> lt q p = false) ->
+            (forall p q r, lt p r = true -> lt p q = true \/ lt q r = true) ->
+            lt x y = true \/ lt y x = false /\ lexP ks a b ->
+            lt y z = true \/ lt z y = false /\ lexP ks b c ->
+            lt x z = true \/ lt z x = false /\ lexP ks a c).
+  { intros lt Ha Hn [H1|[H1 P1]] [H2|[H2 P2]].
+    - left. destruct (Hn _ z _ H1) as [H|H]; auto. apply Ha in H2. congruence.
+    - left. destruct (Hn _ z _ H1) as [H|H]; auto. congruence.
+    - left. destruct (Hn _ x _ H2) as [H|H]; auto. congruence.
+    - right. split; [|eauto].
+      destruct (lt z x) eqn:E; auto. destruct (Hn _ y _ E) as [H|H]; congruence. }
+  destruct desc.
+  - apply (G (fun p q => klt q p)).
+    + intros p q. apply klt_asym.
+    + intros p q r H. destruct (klt_ntrans _ q _ H); auto.
+  - apply (G klt); [apply klt_asym|apply klt_ntrans].
+Qed.
+
+Lemma Sorted_SS_lexP keys l : Sorted (fun x y => lexP keys x y) l -> StronglySorted (lexP keys) l.
+Proof.
+  apply Sorted_StronglySorted. intros a b c. apply lexP_trans.
+Qed.
+
+Section Stable.
+  Variable A : Type.
+  Variable lt : A -> A -> bool.
+  Variable p : A -> bool.
+  (* the selected elements are pairwise tied *)
+  Hypothesis tied : forall a b, p a = true -> p b = true -> lt a b = false.
+
+  Lemma insert_split x s : exists s1 s2,
+    s = s1 ++ s2 /\ insert lt x s = s1 ++ x :: s2 /\ Forall (fun y => lt y x = true) s1.
+  Proof.
+    induction s as [|y r IH]; simpl.
+    - exists [], []. repeat split; constructor.
+    - destruct (lt y x) eqn:E.
+      + destruct IH as [s1 [s2 [H1 [H2 H3]]]]. exists (y :: s1), s2. simpl.
+        repeat split; [now f_equal|now f_equal|constructor; auto].
+      + exists [], (y :: r). repeat split; constructor.
+  Qed.
+
+  Lemma filter_insert x s :
+    filter p (insert lt x s) = if p x then x :: filter p s else filter p s.
+  Proof.
+    destruct (insert_split x s) as [s1 [s2 [H1 [H2 H3]]]]. rewrite H2, H1.
+    rewrite !filter_app. simpl. destruct (p x) eqn:Ex; auto.
+    assert (Hn : filter p s1 = []).
+    { clear -H3 Ex tied. induction H3 as [|y r Hy Hr IH]; simpl; auto.
+      destruct (p y) eqn:Ey; auto. rewrite (tied y x Ey Ex) in Hy. discriminate. }
+    rewrite Hn. reflexivity.
+  Qed.
+
+  Lemma filter_isort l : filter p (isort lt l) = filter p l.
+  Proof.
+    induction l as [|x r IH]; simpl; auto.
+    rewrite filter_insert, IH. reflexivity.
+  Qed.
+End Stable.
+
+Lemma filter_rev' {A} (p : A -> bool) l : filter p (rev l) = rev (filter p l).
+Proof.
+  induction l as [|x r IH]; simpl; auto.
+  rewrite filter_app, IH. simpl. destruct (p x); simpl; auto. now rewrite app_nil_r.
+Qed.
+
+(* ORDER BY is stable: rows that are pairwise tied on every sort key keep the
+   order in which they arrived *)
+Theorem eval_orderby_stable keys (p : sol -> bool) l :
+  (forall k a b, In k keys -> p a = true -> p b = true -> row_lt (snd k) a b = false) ->
+  filter p (eval_orderby keys l) = filter p l.
+Proof.
+  induction keys as [|k ks IH]; intros H; simpl; auto.
+  assert (Hk : forall a b, p a = true -> p b = true -> row_lt (snd k) a b = false).
+  { intros a b. apply H. simpl; auto. }
+  unfold sort_by. destruct (fst k).
+  - rewrite filter_rev', (filter_isort _ _ _ Hk), filter_rev', rev_involutive.
+    apply IH. intros k' a b Hin. apply H. simpl; auto.
+  - rewrite (filter_isort _ _ _ Hk). apply IH. intros k' a b Hin. apply H. simpl; auto.
+Qed.
